@@ -186,7 +186,6 @@ class HTTPChannel(wasyncore.dispatcher):
             self.total_outbufs_len += num_bytes
             self.sent_continue = True
             self._flush_some()
-        self.request.completed = False
 
     def received(self, data):
         """
